@@ -349,6 +349,8 @@ class Interp:
                 self.bind(t, x, env)
         elif isinstance(target, ast.Subscript):
             self.ev(target.value, env)[self.ev(target.slice, env)] = v
+        elif isinstance(target, ast.Attribute) and isinstance(self.ev(target.value, env), Obj):
+            self.ev(target.value, env).fields[target.attr] = v
         else:
             raise ShapeError(f'assignment target `{ast.unparse(target)}`')
 
